@@ -4,3 +4,5 @@ pub mod utf16;
 pub mod luavm;
 pub mod lspshape;
 pub mod treedump;
+pub mod cfgmodel;
+pub mod modres;
